@@ -132,6 +132,10 @@ func (s *snapshotFile) Close() error {
 	// containing the snapshot and its metadata to its
 	// permanent name since it is safely on disk now.
 	if isTmpDir {
+		// The name orders the snapshots. It is taken now, when the snapshot is published, and
+		// not when the file was created: of two files that are written at the same time, the
+		// one that is published last is the most recent snapshot.
+		s.dir = filepath.Join(filepath.Dir(s.tmpDir), buildDirectoryBase())
 		if err := os.Rename(s.tmpDir, s.dir); err != nil {
 			return fmt.Errorf("could not perform rename: %w", err)
 		}
@@ -225,7 +229,6 @@ func (p *persistentSnapshotStorage) NewSnapshotFile(
 
 	return &snapshotFile{
 		ReadWriteSeeker: dataFile,
-		dir:             filepath.Join(p.snapshotDir, buildDirectoryBase()),
 		tmpDir:          tmpDir,
 		file:            dataFile,
 		metadata:        metadata,
